@@ -545,7 +545,7 @@ impl<F: Fixed> Wrapping<F> {
     /// let den = Wrapping(I16F16::from_num(2));
     /// assert_eq!(num.div_euclid(den), Wrapping(I16F16::from_num(3)));
     /// let quarter = Wrapping(I16F16::from_num(0.25));
-    /// let check = (Wrapping::max_value() * 4i32).round_to_zero();
+    /// let check = Wrapping::<I16F16>::from_num(I16F16::max_value().to_bits() >> 14);
     /// assert_eq!(Wrapping::max_value().div_euclid(quarter), check);
     /// ```
     #[inline]
